@@ -13,9 +13,10 @@
   Which transitions the machine has (automatic ones only when shown) is the model's *input*; that
   the input equals the live machine's table is checked by the harness against the Event objects.
 
-  Three places where the pinned code violates C16 have a switch in `Opts` (`false` = the code as it
-  is); each has the full-strength statement for the repaired switch, a `_partial` theorem with the
-  explicit exclusion, and a `_counterexample`.
+  The model follows the repaired tree (fix: commits d4cb904, 043c146, 84b14cc, 47dcba3 in /repo);
+  the statements that were `_partial` on the pinned tree (flat final markers, previous = global source,
+  ROI view always defined) hold at full strength.  The former counterexamples are kept as `example`s of
+  the repaired behaviour and as regression cases in corpus/C16/.
 -/
 import Proofs.C16
 
@@ -135,34 +136,32 @@ theorem C16_final_initial_marked (o : Opts) (st : Styles) (states : List MState)
       simp [renderState, DNode.name, DNode.final, DNode.block, DNode.init, DNode.par, MState.final,
         MState.block, MState.init]
 
-/-- flat diagrams: every declared node carries the final marker iff the state is final — holds for the
-repaired backend only -/
-theorem C16_final_marked_flat_partial (o : Opts) (st : Styles) (s : MState) (hfix : o.fixFlatFinal = true) :
+/-- **Final markers (flat).** Every node of a flat diagram is named after its state and carries the
+final marker iff the state is final. -/
+theorem C16_final_marked_flat (o : Opts) (st : Styles) (s : MState) :
     (renderFlat o st s).final = s.final ∧ (renderFlat o st s).name = [s.name] := by
-  simp [renderFlat, DNode.final, DNode.name, hfix]
+  simp [renderFlat, DNode.final, DNode.name]
 
-/-- the flat Mermaid backend as it is drops the final flag: state 1 is final and not marked -/
-theorem C16_final_marked_flat_counterexample :
+/-- the former witness (flat machine, state 1 final): marked -/
+example :
     let o : Opts := { nested := false, showConds := false, showAttrs := false }
     let s : MState := .mk 1 none true [] [] .none false [] []
-    s.final = true ∧ (renderFlat o {} s).final = false := by
+    s.final = true ∧ (renderFlat o {} s).final = true := by
   decide
 
 /-- **Activity.** After any history of graph operations on a model's graph (created for the model
 state `init`), in the full diagram of any machine: a top-level state styled `active` is one of the
-model's current states; a top-level state styled `previous` is the recorded source of the last
-executed transition and not current; every top-level current state is styled `active`; the recorded
+model's current states; a top-level state styled `previous` is the (global) source of the last
+executed transition and not current; every top-level current state is styled `active`; the last
 source, when top-level and not current, is styled `previous`. -/
-theorem C16_activity (o : Opts) (m : Mach) (init : List Path) (h : List Step) (d : Diagram)
-    (hd : diagram o m (stylesAfter o init h) none = some d) :
+theorem C16_activity (o : Opts) (m : Mach) (init : List Path) (h : List Step) :
+    let d := diagram o m (stylesAfter init h) none
     (∀ p ∈ styledTop d 1, p ∈ curOf init h) ∧
-    (∀ p ∈ styledTop d 2, recordedSource o h = some p ∧ p ∉ curOf init h) ∧
+    (∀ p ∈ styledTop d 2, lastSource h = some p ∧ p ∉ curOf init h) ∧
     (∀ s ∈ m.states, [s.name] ∈ curOf init h → [s.name] ∈ styledTop d 1) ∧
-    (∀ s ∈ m.states, recordedSource o h = some [s.name] → [s.name] ∉ curOf init h →
+    (∀ s ∈ m.states, lastSource h = some [s.name] → [s.name] ∉ curOf init h →
       [s.name] ∈ styledTop d 2) := by
-  simp only [diagram, Option.some.injEq] at hd
-  subst hd
-  simp only [styledTop, List.mem_map, List.mem_filter, beq_iff_eq]
+  simp only [diagram, styledTop, List.mem_map, List.mem_filter, beq_iff_eq]
   refine ⟨?_, ?_, ?_, ?_⟩
   · rintro p ⟨n, ⟨hn, hc⟩, rfl⟩
     obtain ⟨s, _, h1, h2⟩ := nodesOf_top o _ m.states n hn
@@ -178,99 +177,80 @@ theorem C16_activity (o : Opts) (m : Mach) (init : List Path) (h : List Step) (d
     by_cases hm : [s.name] ∈ curOf init h
     · simp [hm] at hc
     · simp only [hm, if_false] at hc
-      by_cases hr : recordedSource o h = some [s.name]
+      by_cases hr : lastSource h = some [s.name]
       · exact ⟨hr, hm⟩
       · simp [hr] at hc
   · intro s hs hm
-    obtain ⟨n, hn, h1, h2⟩ := nodesOf_top' o (stylesAfter o init h) m.states s hs
+    obtain ⟨n, hn, h1, h2⟩ := nodesOf_top' o (stylesAfter init h) m.states s hs
     exact ⟨n, ⟨hn, by rw [h2, styleOf_after]; simp [hm]⟩, h1⟩
   · intro s hs hr hm
-    obtain ⟨n, hn, h1, h2⟩ := nodesOf_top' o (stylesAfter o init h) m.states s hs
+    obtain ⟨n, hn, h1, h2⟩ := nodesOf_top' o (stylesAfter init h) m.states s hs
     exact ⟨n, ⟨hn, by rw [h2, styleOf_after]; simp [hm, hr]⟩, h1⟩
 
-/-- the recorded source is the global name of the last executed transition's source when the
-backend globalises (repaired) or the transition is listed at the root (always so on flat machines);
-then "styled previous ⊆ {source of the last executed transition}" holds at full strength -/
-theorem C16_activity_previous_partial (o : Opts) (m : Mach) (init : List Path) (h : List Step) (d : Diagram)
-    (hd : diagram o m (stylesAfter o init h) none = some d)
-    (hx : o.fixPrev = true ∨ ∀ pre src dst c, h.getLast? = some (.change pre src dst c) → pre = []) :
-    ∀ p ∈ styledTop d 2, lastSource h = some p := by
-  intro p hp
-  have hr := ((C16_activity o m init h d hd).2.1 p hp).1
-  unfold recordedSource at hr
-  unfold lastSource
-  cases hl : h.getLast? with
-  | none => simp [hl] at hr
-  | some s =>
-    cases s with
-    | regen c => simp [hl] at hr
-    | change pre src dst c =>
-      simp only [hl, Option.some.injEq] at hr ⊢
-      rcases hx with hx | hx
-      · simpa [prevKey, hx] using hr
-      · have := hx pre src dst c hl
-        subst this
-        simpa [prevKey] using hr
+/-- **Previous = source of the last executed transition**, at full strength: whatever scope the
+transition is listed in, only the state whose *global* name is the transition's source can be styled
+previous (and nothing is after a regeneration or before the first transition). -/
+theorem C16_activity_previous (o : Opts) (m : Mach) (init : List Path) (h : List Step) :
+    ∀ p ∈ styledTop (diagram o m (stylesAfter init h) none) 2, lastSource h = some p :=
+  fun p hp => ((C16_activity o m init h).2.1 p hp).1
 
-/-- the nested Mermaid backend as it is records the scope-relative name: after the transition
-`0 → 2` listed in the scope of the compound state `1` (global source `[1, 0]`), the unrelated
-top-level state `[0]` is styled previous -/
-theorem C16_activity_previous_counterexample :
+/-- the former witness: after the transition `0 → 2` listed in the scope of the compound state `1`
+(global source `[1, 0]`) the unrelated top-level state `[0]` is no longer styled previous -/
+example :
     let o : Opts := { nested := true, showConds := false, showAttrs := false }
     let leaf : Nat → MState := fun n => .mk n none false [] [] .none false [] []
     let m : Mach := { states := [leaf 0, .mk 1 none false [] [] (.one 0) true [leaf 0, leaf 2]
                         [{ trigger := [0, 0], source := [0], dest := some [2] }]],
                       trans := [], initial := some [1] }
     let h : List Step := [.change [1] [0] [2] [[1, 2]]]
-    (diagram o m (stylesAfter o [[1, 0]] h) none).map (fun d => styledTop d 2) = some [[0]] ∧
-      lastSource h = some [1, 0] := by
+    styledTop (diagram o m (stylesAfter [[1, 0]] h) none) 2 = [] ∧ lastSource h = some [1, 0] := by
   decide
 
-/-- **Region of interest (hierarchical).** When the ROI view is produced: every active state and
-every ancestor of one (`roiActive`) that is a state of the machine is declared; every transition
-whose source is active is named on its edge line; and its source and target are declared when they
-are states of the machine. -/
-theorem C16_roi (o : Opts) (m : Mach) (st : Styles) (cur : List Path) (d : Diagram)
-    (hn : o.nested = true) (hd : diagram o m st (some cur) = some d) :
+/-- **Region of interest (hierarchical).** In the ROI view: every active state and every ancestor of
+one (`roiActive`) that is a state of the machine is declared; every transition whose source is
+active is named on its edge line; and its source and target are declared when they are states of the
+machine. -/
+theorem C16_roi (o : Opts) (m : Mach) (st : Styles) (cur : List Path) (hn : o.nested = true) :
+    let d := diagram o m st (some cur)
     (∀ p ∈ roiActive o cur, p ∈ pathsL [] m.states → p ∈ dnamesL d.nodes) ∧
     (∀ t ∈ elements m, t.source ∈ roiActive o cur →
       ((tlabel o t).isEmpty = false → tlabel o t ∈ labelsAt d.edges (edgeKey t)) ∧
       (t.source ∈ pathsL [] m.states → t.source ∈ dnamesL d.nodes) ∧
       ((t.dest.getD t.source) ∈ pathsL [] m.states → (t.dest.getD t.source) ∈ dnamesL d.nodes)) := by
-  simp only [diagram] at hd
-  cases hr : roiTrans o st (roiActive o cur) (elements m) with
-  | none => simp [hr] at hd
-  | some ts' =>
-    simp only [hr, Option.some.injEq] at hd
-    subst hd
-    simp only [nodesOf, hn, if_true, dnamesL_render]
-    have keepOK : ∀ p, p ∈ roiStates st (roiActive o cur) ts' → p ∈ pathsL [] m.states →
-        p ∈ pathsL [] (filterList (roiStates st (roiActive o cur) ts') [] m.states) :=
-      fun p hp hm => pathsL_filter _ [] m.states p hm (by simpa using hp)
-    refine ⟨fun p hp hm => keepOK p (by simp [roiStates, hp]) hm, ?_⟩
-    intro t ht hs
-    have hin : t ∈ ts' := roiTrans_keeps o st _ _ ts' hr t ht (by simpa using hs)
-    refine ⟨fun hv => C16_edges_present o ts' t hin hv, fun hm => keepOK _ ?_ hm, fun hm => keepOK _ ?_ hm⟩
-    · simp only [roiStates, List.mem_append, List.mem_flatMap]
-      exact Or.inl (Or.inr ⟨t, hin, by simp⟩)
-    · simp only [roiStates, List.mem_append, List.mem_flatMap]
-      exact Or.inl (Or.inr ⟨t, hin, by simp⟩)
+  simp only [diagram, nodesOf, hn, if_true, dnamesL_render]
+  generalize hts : roiTrans st (roiActive o cur) (elements m) = ts'
+  have keepOK : ∀ p, p ∈ roiStates st (roiActive o cur) ts' → p ∈ pathsL [] m.states →
+      p ∈ pathsL [] (filterList (roiStates st (roiActive o cur) ts') [] m.states) :=
+    fun p hp hm => pathsL_filter _ [] m.states p hm (by simpa using hp)
+  refine ⟨fun p hp hm => keepOK p (by simp [roiStates, hp]) hm, ?_⟩
+  intro t ht hs
+  have hin : t ∈ ts' := by
+    rw [← hts, roiTrans_mem]; exact ⟨ht, Or.inl hs⟩
+  refine ⟨fun hv => C16_edges_present o ts' t hin hv, fun hm => keepOK _ ?_ hm, fun hm => keepOK _ ?_ hm⟩
+  · simp only [roiStates, List.mem_append, List.mem_flatMap]
+    exact Or.inl (Or.inr ⟨t, hin, by simp⟩)
+  · simp only [roiStates, List.mem_append, List.mem_flatMap]
+    exact Or.inl (Or.inr ⟨t, hin, by simp⟩)
 
-/-- the ROI view exists for every machine and state — holds for the repaired filter only -/
-theorem C16_roi_defined_partial (o : Opts) (m : Mach) (st : Styles) (cur : List Path) (hfix : o.fixRoi = true) :
-    (diagram o m st (some cur)).isSome = true := by
-  simp only [diagram]
-  obtain ⟨ts', hr⟩ := Option.isSome_iff_exists.mp (roiTrans_fixed o st (roiActive o cur) hfix (elements m))
-  simp [hr]
+/-- **The ROI view is defined for every machine, flat or hierarchical.** `diagram` is a total function
+(no case of the filter raises); the transitions it keeps are exactly those whose source is active or
+whose (source, destination) edge is styled — an internal transition (no destination) on an inactive
+state is simply left out — and all of them reach the edge lines. -/
+theorem C16_roi_defined (o : Opts) (m : Mach) (st : Styles) (cur : List Path) :
+    (∀ t, t ∈ roiTrans st (roiActive o cur) (elements m) ↔
+      t ∈ elements m ∧ (t.source ∈ roiActive o cur ∨ st.edgeStyled t.source t.dest = true)) ∧
+    (diagram o m st (some cur)).edges = edgesOf o (roiTrans st (roiActive o cur) (elements m)) :=
+  ⟨fun t => roiTrans_mem st _ _ t, rfl⟩
 
-/-- the ROI filter as it is raises (KeyError: 'dest') as soon as the machine has an internal
-transition whose source is not active: flat machine, states 0 and 1, internal transition on 1, model in 0 -/
-theorem C16_roi_counterexample :
+/-- the former witness (flat machine, states 0 and 1, internal transition on 1, model in 0): the ROI
+view is the active state alone -/
+example :
     let o : Opts := { nested := false, showConds := false, showAttrs := false }
     let leaf : Nat → MState := fun n => .mk n none false [] [] .none false [] []
     let m : Mach := { states := [leaf 0, leaf 1],
                       trans := [{ trigger := [0, 0], source := [1], dest := none }], initial := some [0] }
-    (diagram o m (stylesAfter o [[0]] []) (some [[0]])).isSome = false := by
+    let d := diagram o m (stylesAfter [[0]] []) (some [[0]])
+    dnamesL d.nodes = [[0]] ∧ d.edges = [] ∧ styledTop d 1 = [[0]] := by
   decide
 
 /-- **Regeneration.** After add_states / add_transition / remove_transition (`regen cur`) — whatever
@@ -278,10 +258,10 @@ happened before — exactly the names of the model's state are styled active and
 previous; the diagram itself is a function of the current description (`diagram o m …`), so added or
 removed states and transitions appear or disappear by `C16_states_once_*` / `C16_edges_exact` applied
 to the new description. -/
-theorem C16_regenerated (o : Opts) (init : List Path) (h : List Step) (cur : List Path) (p : Path) :
-    (stylesAfter o init (h ++ [.regen cur])).styleOf p = (if p ∈ cur then 1 else 0) := by
+theorem C16_regenerated (init : List Path) (h : List Step) (cur : List Path) (p : Path) :
+    (stylesAfter init (h ++ [.regen cur])).styleOf p = (if p ∈ cur then 1 else 0) := by
   rw [styleOf_after]
-  simp [curOf, recordedSource]
+  simp [curOf, lastSource]
 
 /-! ### non-vacuity -/
 
@@ -298,12 +278,5 @@ example :
        { trigger := [0, 1], source := [1], dest := none, conds := [0], unl := [2] }]) ([1], [1]) =
     [{ text := [0, 0], internal := false, conds := [], unl := [] },
      { text := [0, 1], internal := true, conds := [0], unl := [2] }] := by decide
-
-/-- a history whose last step is a root-level change satisfies the hypothesis of the partial theorem -/
-example : ∀ pre src dst c, ([Step.regen [[0]], .change [] [0] [1] [[1]]] : List Step).getLast? =
-    some (.change pre src dst c) → pre = [] := by
-  intro pre src dst c h
-  simp at h
-  exact h.1
 
 end TM
